@@ -552,7 +552,14 @@ CP_IMPLS = [("Geodesic", True), ("Segment", True), ("HorosphereArc", False),
 
 
 def _ordering_table(f, enum):
-    """model value -> ordering helper applied to thetas."""
+    """model value -> ordering helper applied to the angle pair (the result
+    of utils.circle_angles, whatever it is called)."""
+    angle_names = {"thetas"}
+    for n in ast.walk(f.node):
+        if isinstance(n, ast.Assign) and isinstance(n.value, ast.Call) \
+                and dotted(n.value.func).endswith("circle_angles") \
+                and isinstance(n.targets[0], ast.Name):
+            angle_names.add(n.targets[0].id)
     table = {}
     for n in ast.walk(f.node):
         if isinstance(n, ast.If):
@@ -563,7 +570,7 @@ def _ordering_table(f, enum):
                 for c in ast.walk(s):
                     if isinstance(c, ast.Call) and dotted(c.func).startswith(
                             "utils.") and c.args \
-                            and dotted(c.args[0]) == "thetas":
+                            and dotted(c.args[0]) in angle_names:
                         table[v] = dotted(c.func)
     return table
 
@@ -687,8 +694,16 @@ def rule_x1x2(ctx):
                     t2 = t2.value
                 if dotted(t2) != var:
                     continue
+                pi_names = {"pi"} | {
+                    dotted(a.targets[0]) for a in ast.walk(g.node)
+                    if isinstance(a, ast.Assign)
+                    and isinstance(a.targets[0], ast.Name) and (
+                        (isinstance(a.value, ast.Call)
+                         and dotted(a.value.func).split(".")[-1] == "pi")
+                        or (isinstance(a.value, ast.Attribute)
+                            and a.value.attr == "pi"))}
                 uses_pi = any(
-                    (isinstance(x, ast.Name) and x.id == "pi")
+                    (isinstance(x, ast.Name) and x.id in pi_names)
                     or (isinstance(x, ast.Attribute) and x.attr == "pi")
                     for x in ast.walk(st.value))
                 if not uses_pi:
